@@ -395,6 +395,9 @@ pub fn remaining_file_content<'a>(input: &'a mut LineReader) -> Result<&'a str, 
         .is_some()
     {}
 
+    // The remaining content ends at the end of the input, not where reading the input failed.
+    input.reader.check_io_error()?;
+
     let bytes = input.reader.buf();
 
     match (std::str::from_utf8(bytes), bytes.last()) {
